@@ -51,7 +51,7 @@ def all_workers(cluster):
 
 # ----------------------------------------------------------------------------- profiles
 @st.composite
-def strategy_for(draw, cluster, feasible=True, max_runtime=12, zero_runtime=False, contention=False):
+def strategy_for(draw, cluster, feasible=True, max_runtime=12, zero_runtime=False, contention=False, zero_quantity=False):
     workers = all_workers(cluster)
     if feasible:
         w = draw(st.sampled_from(workers))
@@ -68,6 +68,11 @@ def strategy_for(draw, cluster, feasible=True, max_runtime=12, zero_runtime=Fals
         k = draw(st.integers(1, 2))
         chosen = draw(st.permutations(TYPES))[:k]
         res = {t: draw(st.integers(1, 5)) for t in chosen}
+    if zero_quantity and draw(st.integers(0, 5)) == 0:
+        # a demand vector that names a type with quantity 0 (ahead of the real entries): it asks for nothing of it
+        extra = draw(st.sampled_from([t for t in TYPES if t not in res] or TYPES))
+        if extra not in res:
+            res = {extra: 0, **res}
     lo = 0 if zero_runtime else 1
     return {"runtime": draw(st.integers(lo, max_runtime)), "resources": res, "batch": 1}
 
@@ -128,8 +133,13 @@ def _block(draw, b, budget, depth, conditionals, force=None):
                 for ee in e:
                     b.edge(xx, ee)
         exits = x
-        while budget - used >= 1 and draw(st.booleans()):
-            e, x, u = draw(_block(b, budget - used, depth, conditionals))
+        first = True
+        two_regions = budget >= 9
+        while budget - used >= 1 and ((two_regions and first) or draw(st.booleans())):
+            # a second conditional region right after the join of the first one, when there is room for it
+            again = "cond" if first and budget - used >= 4 and (two_regions or draw(st.booleans())) else None
+            first = False
+            e, x, u = draw(_block(b, budget - used, depth, conditionals, force=again))
             used += u
             for xx in exits:
                 for ee in e:
@@ -228,6 +238,8 @@ def job_graphs(draw, name, n_profiles, max_jobs=8, conditionals=True):
     b = _B()
     budget = draw(st.integers(1, max_jobs))
     if conditionals == "heavy" and draw(st.integers(0, 4)) > 0:
+        if max_jobs >= 9 and draw(st.integers(0, 3)) == 0:
+            budget = max(budget, 9)  # room for two conditional regions in sequence
         draw(_block(b, max(4, budget), 0, conditionals, force="condchain"))
     else:
         draw(_block(b, budget, 0, conditionals))
@@ -308,6 +320,7 @@ def worlds(
     contention=False,
     zero_runtime=False,
     single_worker_pools=False,
+    zero_quantity=False,
     max_pools=3,
     max_workers=3,
     max_runtime=12,
@@ -318,7 +331,7 @@ def worlds(
     feas = draw(st.sampled_from([True, True, True, False])) if feasible is None else feasible
     n_prof = draw(st.integers(1, 4))
     profiles = [
-        draw(profile_for(cluster, f"pr{i}", feasible=feas, max_runtime=max_runtime, zero_runtime=zero_runtime, contention=contention))
+        draw(profile_for(cluster, f"pr{i}", feasible=feas, max_runtime=max_runtime, zero_runtime=zero_runtime, contention=contention, zero_quantity=zero_quantity))
         for i in range(n_prof)
     ]
     n_graphs = draw(st.integers(1, max_graphs))
